@@ -104,6 +104,16 @@ Theorem C07_response_within_limit_delivered : forall A cfg (req : wire (list A))
 Proof. exact @l_response_ok. Qed.
 Print Assumptions C07_response_within_limit_delivered.
 
+(** histories: any sequence of requests across reloads of the mux and of the pipeline, with or
+    without a pool memoryCache ([hrun]: an update of the pool / proxy limits or of the cache
+    spec starts with empty caches).  Whatever is delivered while the effective
+    serverMaxBodySize of the generation serving the request is non-negative fits THAT limit -
+    also an answer taken from the cache *)
+Theorem C07_limit_in_force_across_reloads : forall A (l : list ((config * Z) * bool * wire (list A) * Z * wire (list A))),
+  bounded zlen l (hrun zlen ztake [] None None l).
+Proof. exact @l_limit_in_force. Qed.
+Print Assumptions C07_limit_in_force_across_reloads.
+
 (** the decidable checker that the run applies to the implementation's observables accepts
     every outcome of the model, for every representation of bodies satisfying [body_laws]
     (strings and lengths, the two that are executed, are instances: [string_laws], [len_laws]) *)
